@@ -543,6 +543,55 @@ def _derives_from_field(ctx: Ctx, t: Term, fld: str) -> bool:
     return any(s[0] == "attr" and s[2] == fld for s in ctx.X.closure(t))
 
 
+def _check_broadcaster(ctx: Ctx, res: RuleResult, g: Func) -> None:
+    """`broadcast_1d_array(array, name, size)`: every returned value has shape (size,) - it is `np.broadcast_to(x, (size,))`
+    (which raises for anything that is not a scalar, a length-1 or a length-`size` vector), the empty array where size == 0,
+    or the input itself where its *shape* was compared with (size,).  A test of the element count lets a (1, n) or (n, 1)
+    matrix through."""
+    from ..util import bool_nnf, path_condition
+
+    if getattr(res, "_broadcasters", None) is None:
+        res._broadcasters = set()
+    if g.qualname in res._broadcasters:
+        return
+    res._broadcasters.add(g.qualname)
+    X = ctx.X
+    size_p = next((("param", g.qualname, p_) for p_ in g.params if p_ in ("size", "length", "n")), None)
+    arr_p = ("param", g.qualname, g.positional[0]) if g.positional else None
+
+    def strip(t):
+        while t[0] == "call" and len(t[2]) >= 1 and (t[1][0] == "global" and t[1][1].split(".")[-1] in ("immutable_array", "asarray", "array", "ascontiguousarray")):
+            t = t[2][0]
+        return t
+
+    for r_ in nodes_in(g, ast.Return):
+        if r_.value is None:
+            continue
+        pc = path_condition(ctx, g, r_)
+        lits = []
+        if pc:
+            g_ = bool_nnf(("bool", "and", tuple(c_ if p_ else ("unary", "not", c_) for c_, p_ in pc)))
+            lits = [(it[1], it[2]) for it in (g_[1] if g_[0] == "and" else [g_]) if it[0] == "lit"]
+        rt = X.at(g, r_.value)
+        ok = True
+        why = ""
+        for alt in (rt[1] if rt[0] == "phi" else [rt]):
+            a = strip(alt)
+            if a[0] == "call" and a[1] == ("global", "numpy.broadcast_to") and len(a[2]) >= 2 and a[2][1] == ("tuple", (size_p,)):
+                continue
+            if a[0] in ("list", "tuple") and not a[1] and any(p_ and x_ == ("cmp", "==", size_p, ("const", 0)) for x_, p_ in lits):
+                continue
+            if strip(a) == arr_p or a == arr_p:
+                shape_ok = any(p_ and x_[0] == "cmp" and x_[1] == "==" and ("attr", arr_p, "shape") in (x_[2], x_[3]) and ("tuple", (size_p,)) in (x_[2], x_[3]) for x_, p_ in lits)
+                if shape_ok:
+                    continue
+                ok, why = False, "the input is returned as it is without a test of its shape against (size,): an array with the right number of elements but another shape (a 1 x n or n x 1 matrix) is accepted"
+                break
+            ok, why = False, f"returns `{show(alt, 70)}`, which is not a broadcast to (size,)"
+            break
+        res.add(g, r_, "every value returned by the 1-D broadcaster has shape (size,)", ok, why, construct=f"{g.name}: return {norm_stmt(r_)[:50]}")
+
+
 def _check_broadcasts(ctx: Ctx, res: RuleResult, c: Cls) -> None:
     """Array fields that are documented as per-variable / per-constraint are
     stored from a broadcast (broadcast_1d_array / np.broadcast_to /
@@ -564,6 +613,11 @@ def _check_broadcasts(ctx: Ctx, res: RuleResult, c: Cls) -> None:
             return any(s[0] == "attr" and s[2] == fld and root_of(s)[0] == "param" for s in ctx.X.closure(v))
 
         ok = any(from_broadcast(v) for _m, _n, v in stores) and all(from_broadcast(v) or from_validated(v) for _m, _n, v in stores)
+        # the package's own broadcaster really yields the requested 1-D shape on every return
+        for _m, _n, v in stores:
+            for s_ in ctx.X.closure(v):
+                if s_[0] == "call" and s_[1][0] == "global" and s_[1][1] in ctx.repo.funcs and s_[1][1].split(".")[-1].startswith("broadcast_1d"):
+                    _check_broadcaster(ctx, res, ctx.repo.funcs[s_[1][1]])
         m0, n0 = (stores[0][0], stores[0][1]) if stores else (None, c.node)
         res.add(m0, n0, f"`{fld}` is broadcast to full length before it is stored", ok,
                 "" if ok else f"a store of `{fld}` does not derive from a broadcast", construct=f"{c.name}: broadcast {fld}",
